@@ -482,6 +482,7 @@ func (idx *MergeSetIndex) putIndexSearch(is *indexSearch) {
 	is.mp.Reset()
 	is.vrp.Reset()
 	is.idx = nil
+	is.deleted = nil
 	is.tfs = is.tfs[:0]
 	indexSearchPool.Put(is)
 }
